@@ -34,6 +34,7 @@ class PackIntMod:
             return [(val & (1 << i)) >> i for i in range((self.mod-1).bit_length())]
         
     def unpack(self, bits, pos):
+        if self.bitlen()==0: return 0   # mod 1: no bits of its own (bits[pos] belongs to the next field, if there is one)
         if isinstance(bits[pos],LinComb) or isinstance(bits[pos],LinCombBool):
             # lincomb in: boundary checking (at the width of this packer, not the global bitlength)
             ret = LinComb.from_bits(bits[pos:pos+self.bitlen()])
